@@ -1,6 +1,7 @@
 package verifsim
 
 import (
+	"os"
 	"bytes"
 	"context"
 	"encoding/json"
@@ -439,6 +440,13 @@ func execC04(x *X) {
 				x.Violate("fixpoint:"+GDiff(before, first)+"/"+s.kind, "calculating a parsed copy of a calculated envelope changed it; %s", DiffDetail(before, first))
 			}
 			x.Probe("kfold")
+		}
+		if os.Getenv("VERIF_DUMP") != "" {
+			// debugging aid for replays: the envelope after every step
+			if f, err := os.OpenFile(os.Getenv("VERIF_DUMP"), os.O_APPEND|os.O_CREATE|os.O_WRONLY, 0o644); err == nil {
+				fmt.Fprintf(f, "DUMP step %d %s %s: %s\n", i, op.K, op.S, Marshal(s.env))
+				f.Close()
+			}
 		}
 		x.Step(i, "slot", op.K, note+"|"+H(Marshal(s.env)))
 		x.Output(fmt.Sprintf("%d:%s", i, op.K), Marshal(s.env))
